@@ -20,7 +20,7 @@ RULE = ("stripes: random band-limited (500-6000 Hz AP, 20-200 Hz LF) waveforms o
 ASSUMPTIONS = ["thresholds are the ones the property states: attenuation <= -40 dB on the central two thirds w.r.t. the high-passed input; spike keeps "
                ">= 90 % of its high-passed, re-aligned amplitude on its peak channel", "a 'few neighbouring channels' = the 7 nearest sites with a Gaussian footprint of sigma 0.4-0.7 site pitches (retention falls "
                "smoothly with footprint width: measured 0.94-0.97 in that range, 0.89-0.91 at sigma 1.0-1.3, which is no longer 'a few channels')", "grouped filters are compared with per-group calls using default padding on both sides"]
-REQUIRED = {"stripe_attenuations": 8, "spike_retentions": 8, "outside_checked": 6, "car_zero_reference": 10, "group_equals_separate": 20,
+REQUIRED = {"default_header_checked": 2, "labels_true_checked": 2, "labels_true_with_bad_channels": 2, "stripe_attenuations": 8, "spike_retentions": 8, "outside_checked": 6, "car_zero_reference": 10, "group_equals_separate": 20,
             "agc_products": 20}
 CASE_TIMEOUT = 120.0
 KINDS = ["3B2", "NP2.1", "NP2.4", "NPultra"]
@@ -94,6 +94,26 @@ def run_case(case):
                     res.check(keep >= 0.90, "destripe:spike-retention", f"{label}: spike at channel {c0} ({int((foot > 0).sum())} sites) keeps {keep:.1%} of its high-passed amplitude",
                               counter="spike_retentions")
                 sigs.add((kind, kf, rep))
+                # ---- the defaults of the call: header derived from the probe version, labels deduced from the data, no version = no correction
+                if rep == 0 and kind in ("3B2", "NP2.1"):
+                    ver = 1 if kind == "3B2" else 2
+                    o_def = V.destripe(st.copy(), fs, neuropixel_version=ver, k_filter=kf)
+                    att = GS.db(GS.rms(o_def[:, sl]), GS.rms(ref[:, sl]))
+                    res.check(att <= -40.0, "destripe:default-header", f"{label}: destripe(neuropixel_version={ver}) without a header attenuates the stripe of that "
+                              f"probe generation by {att:.1f} dB only", counter="default_header_checked")
+                    o_none = V.destripe(st.copy(), fs, h=h, neuropixel_version=None, k_filter=kf)
+                    res.check(np.max(np.abs(o_none[:, sl])) > 1e-3 * np.max(np.abs(ref)) if np.ptp(h["sample_shift"]) > 0 and kf else True, "destripe:no-version-still-corrects",
+                              f"{label}: neuropixel_version=None (no sampling-delay correction asked) removes the skewed stripe completely")
+                    noise = rng.standard_normal(st.shape) * 10e-6
+                    xx = st + noise
+                    xx[int(rng.integers(20, 180))] = 0                                                  # a silent channel
+                    xx[int(rng.integers(200, 360))] += rng.standard_normal(st.shape[1]) * 400e-6        # a noisy channel
+                    lab_auto, _ = V.detect_bad_channels(xx.copy(), fs)
+                    res.count("labels_true_with_bad_channels", int(np.any(lab_auto != 0)))
+                    o_true = V.destripe(xx.copy(), fs, h=h, neuropixel_version=1, k_filter=kf, channel_labels=True)
+                    o_expl = V.destripe(xx.copy(), fs, h=h, neuropixel_version=1, k_filter=kf, channel_labels=lab_auto)
+                    res.check(np.array_equal(o_true, o_expl), "destripe:labels-true", f"{label}: channel_labels=True differs from passing detect_bad_channels(x, fs)[0] "
+                              f"(labels {np.bincount(lab_auto.astype(int)).tolist()})", counter="labels_true_checked")
             except Exception as e:
                 res.exception("destripe:exception", e, label)
     elif cls == "lfp":
